@@ -74,7 +74,7 @@ struct C02Policy
             for_channels(ref, [&](int i, auto&& ch) {
                 int sc = Ch ? m.k : i;
                 uint64_t got = chan_pattern(ch), want = root.tag(sx, sy, sc);
-                long pos = chan_refpos(root.base(), ch), wpos = Org::chan_bitpos(root.g, sx, sy, sc);
+                long pos = Org::addressable ? chan_refpos(root.base(), ch) : -1, wpos = Org::chan_bitpos(root.g, sx, sy, sc);
                 ++ctx.counters["pixel_channel_reads"];
                 if (got != want && bad++ < 3)
                     ctx.fail(id, "wrong-pixel-value", vh::S() << "(" << x << "," << y << ") ch" << i << " should be source (" << sx << "," << sy << ") ch" << sc << ": got " << got << " want " << want);
@@ -147,7 +147,7 @@ struct C02Policy
     static void identities(vh::Ctx& ctx, Root<Org>& root, V const& v, std::string const& id)
     {
         unsigned char const* b = root.base();
-        constexpr bool A = !Conv;
+        constexpr bool A = !Conv && Org::addressable;
         if (!same_pixels<A>(b, gil::flipped_up_down_view(gil::flipped_up_down_view(v)), v)) ctx.fail(id, "identity:flipUD.flipUD");
         if (!same_pixels<A>(b, gil::flipped_left_right_view(gil::flipped_left_right_view(v)), v)) ctx.fail(id, "identity:flipLR.flipLR");
         if (!same_pixels<A>(b, gil::transposed_view(gil::transposed_view(v)), v)) ctx.fail(id, "identity:transposed.transposed");
